@@ -6,8 +6,10 @@
       subtraction mixes a byte length with a character count, the string's
       length used for clamping is chars().count(); no byte-based string
       operation at all in substr's reach;
-  K2  substr slices only through chars().skip(start).take(count).collect() on
-      operand 0's payload — no byte-range slicing, split_at, get(range);
+  K2  the text substr returns is made of characters of operand 0's payload taken
+      through its chars() iterator and selected by position only (collect of
+      chars()[.skip][.take], or a String that only receives push(c) with c from
+      next() of chars()[.enumerate()]) — no byte-range slicing, split_at, get(range);
       start/length come from operands 1 and 2 through as_i64 (non-integers are Err);
   K3  cat: one forward pass over the operands; per operand kind (variant
       specialisation of the per-operand code, helpers included) a String
@@ -18,7 +20,9 @@
   K4  the string form (to-string function) per kind: Null → "null", Bool → its
       Display, Number → the JSON text of the number, String → itself, Object →
       "[object Object]", Array → the elements' forms joined with ",", where a null
-      element contributes "" and every other element recurses.
+      element contributes "" and every other element recurses (join(map(..)), or —
+      for any way of appending to one buffer — the emission table
+      (first | later) × (null | other) read by rules/joinloop.py EmissionTable).
   K5  clamping can neither trap nor wrap: no raw integer Add/Sub/Mul/Shl/Neg
       (checked-by-assert or unchecked) in substr's reach — index arithmetic goes
       through checked_* / saturating_* / min / max / unsigned_abs / try_into, whose
@@ -86,20 +90,78 @@ def run(ctx):
         r = strip_refs(sb.trace(0))
         cands = [strip_refs(x) for x in r[2]] if r[0] == "phi" else [r]
         oks = [c for c in cands if c[0] == "agg" and c[1].get("variant") == "Ok"]
-        good = False
+        # the returned text is made of characters of operand 0's payload, taken through its chars() iterator and
+        # selected by position only — stated on where the text comes from, for either way of building it:
+        #   collect(chars(P) [.skip(..)] [.take(..)])       |      a String that only receives push(c), c from
+        #   next() of chars(P) [.enumerate()]
+        slice_state, slice_why = "unread", "substr's result is %s" % show_expr(r)[:160]
+
+        def chars_root(x):
+            """(source of the characters, adaptors met) of an iterator expression"""
+            ads = []
+            x = strip_refs(x)
+            while x[0] == "call" and x[1] and re.search(r"(Iterator::|Iterator>::)\w+$|IntoIterator>::into_iter$", x[1]["path"]) and x[2]:
+                if not x[1]["path"].endswith("into_iter"):
+                    ads.append(x[1]["path"].rsplit("::", 1)[1])
+                x = strip_refs(x[2][0])
+            if x[0] == "call" and x[1] and x[1]["path"] == "core::str::<impl str>::chars" and x[2]:
+                y = strip_refs(x[2][0])
+                while y[0] == "call" and y[1] and re.search(r"Deref>::deref$|::as_str$", y[1]["path"]):
+                    y = strip_refs(y[2][0])
+                return y, ads
+            return None, ads
+
+        def is_operand0(y):
+            return y is not None and y[0] == "field" and y[1][0] == "downcast" and y[1][2] == "String" and expr_mentions(y, lambda z: z[0] == "call" and z[1] and z[1]["path"].endswith("Index<I>>::index") and const_value(strip_refs(z[2][1])[1]) == 0)
+
         for c in oks:
             v = strip_refs(c[2][0])
-            if v[0] == "agg" and v[1].get("variant") == "String":
-                x = strip_refs(v[2][0])
-                chain = []
-                while x[0] == "call" and x[1] and re.search(r"(Iterator::|Iterator>::)(collect|take|skip)$|::chars$", x[1]["path"]):
-                    chain.append(x[1]["path"].rsplit("::", 1)[1])
-                    x = strip_refs(x[2][0])
-                while x[0] == "call" and x[1] and x[1]["path"].endswith("Deref>::deref"):
-                    x = strip_refs(x[2][0])
-                src_ok = x[0] == "field" and x[1][0] == "downcast" and x[1][2] == "String" and expr_mentions(x, lambda y: y[0] == "call" and y[1] and y[1]["path"].endswith("Index<I>>::index") and const_value(strip_refs(y[2][1])[1]) == 0)
-                good = chain == ["collect", "take", "skip", "chars"] and src_ok
-        ctx.check(len(oks) == 1 and good, "K2.slice-shape", "substr returns chars().skip(start).take(count).collect() of operand 0 (%s)" % cfg, "substr's result is %s" % show_expr(r)[:200], where=sb.where(), fn=sb.key, nontrivial=True)
+            if not (v[0] == "agg" and v[1].get("variant") == "String" and v[2]):
+                continue
+            x = strip_refs(v[2][0])
+            if x[0] == "call" and x[1] and re.search(r"(Iterator::|Iterator>::)collect$", x[1]["path"]):
+                src, ads = chars_root(x[2][0])
+                if src is None:
+                    slice_why = "substr collects %s" % show_expr(x)[:120]
+                elif not is_operand0(src):
+                    slice_state, slice_why = "bad", "substr slices %s, not the payload of operand 0" % show_expr(src)[:100]
+                elif [a for a in ads if a not in ("skip", "take")]:
+                    slice_state, slice_why = ("bad" if [a for a in ads if a in ("rev", "filter", "map", "step_by", "chain", "cycle", "filter_map", "flat_map")] else "unread"), "substr selects the characters with %s — not a selection by position (skip/take)" % ads
+                else:
+                    slice_state = "ok"
+            elif x[0] == "call" and x[1] and re.search(r"^std::string::String::(new|with_capacity)$", x[1]["path"]):
+                appends = [s for s in su.calls_path(r"^std::string::String::(push|push_str|insert|insert_str|extend)$|Extend<.*>>::extend$") if strip_refs(s.body.trace(s.term["args"][0])) == x]
+                probs, n_ok = [], 0
+                for s in appends:
+                    if callee_path(s.term) != "std::string::String::push":
+                        probs.append(("unread", "the result also receives %s" % callee_path(s.term)))
+                        continue
+                    a = s.body.trace(s.term["args"][1])
+                    nx = []
+                    expr_mentions(a, lambda z: z[0] == "call" and z[1] and z[1]["path"].endswith("::next") and z[2] and not nx.append(z))
+                    if len(nx) != 1:
+                        probs.append(("unread", "a pushed character is %s" % show_expr(a)[:100]))
+                        continue
+                    src, ads = chars_root(nx[0][2][0])
+                    if src is None:
+                        probs.append(("unread", "a pushed character comes from %s" % show_expr(nx[0])[:100]))
+                    elif not is_operand0(src):
+                        probs.append(("bad", "substr takes characters of %s, not of the payload of operand 0" % show_expr(src)[:100]))
+                    elif [a_ for a_ in ads if a_ not in ("skip", "take", "enumerate")]:
+                        probs.append(("unread", "the characters come through %s" % ads))
+                    else:
+                        n_ok += 1
+                if any(k_ == "bad" for k_, _ in probs):
+                    slice_state, slice_why = "bad", [m for k_, m in probs if k_ == "bad"][0]
+                elif probs or not n_ok:
+                    slice_why = probs[0][1] if probs else "nothing is appended to the result"
+                else:
+                    slice_state = "ok"
+        key_ = "substr returns characters of operand 0 selected by position through chars() (%s)" % cfg
+        if len(oks) != 1 or slice_state == "unread":
+            ctx.unread("K2.slice-shape", key_, slice_why if len(oks) == 1 else "substr has %d Ok results" % len(oks), where=sb.where(), fn=sb.key)
+        else:
+            ctx.check(slice_state == "ok", "K2.slice-shape", key_, slice_why, where=sb.where(), fn=sb.key, nontrivial=True)
         # ---- K5: clamping can neither trap nor wrap
         raw = []
         for xb in su.bodies:
@@ -296,6 +358,17 @@ def string_form_clauses(ctx, facts, roles, ts, cfg, K="K4"):
                 if src_ok and r[0] == "call" and r[1] and re.search(r"String::(new|with_capacity)$", r[1]["path"]):
                     JL.judge(ctx, jl, K, cfg, ts.where(), ts.key)
                     continue
+                # any other spelling (peeled first element, helpers that receive the buffer or the element, flags):
+                # the emission table of the array arm — (first | later) × (null | other) → what is appended
+                ev = JL.shared_state_across_nesting(facts, ts)
+                if ev:
+                    ctx.fail(K + ".array-element", "string form of Array|nested arrays (%s)" % cfg, ev, where=ts.where(), fn=ts.key)
+                    continue
+                tab = JL.EmissionTable(facts, ts)
+                if JL.judge_table(ctx, tab, K, cfg, ts.where(), ts.key):
+                    continue
+                ctx.unread(K + ".array-join", key, "the array arm is neither join(map(..)) nor readable as appends to one buffer: %s" % "; ".join(tab.unread[:2]), where=ts.where(), fn=ts.key)
+                continue
             ctx.check(bool(good) and sep == ",", K + ".array-join", key, "the string form of an array is %s (separator %r)" % (show_expr(r)[:80], sep), where=ts.where(), fn=ts.key, nontrivial=True, sample={"separator": sep})
             if elem_clos is not None:
                 for ev in facts.variants(VALUE):
